@@ -11,9 +11,10 @@
    two coincide on all inputs (scan_checked_eq), so the proofs can work on the first.
 
    The casts `as u32` / `as u16` of the interval synthesis are explicit; the width of the `len` cast is a
-   parameter ([wl], 16 in the code) so that the wrap-around can also be exhibited on a small instance. *)
+   parameter ([wl], 16 in the code); the widths and the bounds of the asserts come from
+   Gen/SourceConsts.v (regenerated from msp.rs on every run) so that the wrap-around can also be exhibited on a small instance. *)
 From Coq Require Import NArith List Bool Arith.
-From DBG Require Import Spec.Dna Spec.ScanSpec.
+From DBG Require Import Gen.SourceConsts Spec.Dna Spec.ScanSpec.
 Import ListNotations.
 Open Scope nat_scope.
 
@@ -35,7 +36,7 @@ Record interval := mkInterval { iv_minimizer : dna; iv_mpos : N; iv_start : N; i
 
 Definition cast (w : N) (n : nat) : N := (N.of_nat n mod 2 ^ w)%N.
 Definition cast_iv (wl : N) (x : sivl) : interval :=
-  mkInterval (s_min x) (cast 32 (s_mpos x)) (cast 32 (s_start x)) (cast wl (s_len x)).
+  mkInterval (s_min x) (cast msp_mpos_bits (s_mpos x)) (cast msp_start_bits (s_start x)) (cast wl (s_len x)).
 (* reading a reported interval back as plain numbers *)
 Definition iv_nat (x : interval) : sivl :=
   mkS (iv_minimizer x) (N.to_nat (iv_mpos x)) (N.to_nat (iv_start x)) (N.to_nat (iv_len x)).
@@ -99,12 +100,12 @@ Section Scanner.
   Definition scan_raw : list sivl := synth min_positions.
 
   Definition scan_guard : bool :=
-    (k <=? length seq) && (N.of_nat (length seq) <? 2 ^ 32)%N && (p <=? k) && (1 <=? p).
+    (k <=? length seq) && (N.of_nat (length seq) <? 2 ^ msp_assert_shift)%N && (p <=? k) && (1 <=? p).
 
   Definition scan_w (wl : N) : option (list interval) :=
     if scan_guard then Some (map (cast_iv wl) scan_raw) else None.
-  (* the code: len is u16 *)
-  Definition scan : option (list interval) := scan_w 16.
+  (* the code: len is u16 (width pinned from the source) *)
+  Definition scan : option (list interval) := scan_w msp_len_bits.
 End Scanner.
 
 (* ---------------------------------------------------------------------------------------------------
@@ -186,7 +187,7 @@ Section ScannerChecked.
 
   Definition scan_checked_w (wl : N) : option (list interval) :=
     (* assert!(self.seq.len() >= self.k); assert!(self.seq.len() < 1 << 32); P::k() >= 1 by type *)
-    if (k <=? length seq) && (N.of_nat (length seq) <? 2 ^ 32)%N && (1 <=? p) then
+    if (k <=? length seq) && (N.of_nat (length seq) <? 2 ^ msp_assert_shift)%N && (1 <=? p) then
       match sub_usize k p with                     (* k - p *)
       | None => None
       | Some kp =>
@@ -200,7 +201,7 @@ Section ScannerChecked.
           end
       end
     else None.
-  Definition scan_checked : option (list interval) := scan_checked_w 16.
+  Definition scan_checked : option (list interval) := scan_checked_w msp_len_bits.
 End ScannerChecked.
 
 (* MspIntervalP::bucket(): min_rc of the minimizer, to_u64 *)
@@ -214,9 +215,9 @@ Definition perm_score (perm : list N) (rcmode : bool) (x : dna) : N :=
   if rcmode then N.min s (nth (N.to_nat (rank (rc x))) perm 0%N) else s.
 
 Definition simple_scan (seq : dna) (k p : nat) (perm : list N) (rcmode : bool) : option (list (N * N * N)) :=
-  if p <=? 8 then
+  if (N.of_nat p <=? msp_simple_max_p)%N then
     match scan_checked (perm_score perm rcmode) seq k p with
-    | Some ivs => Some (map (fun x => ((bucket_of (iv_minimizer x) mod 2 ^ 16)%N, iv_start x, iv_len x)) ivs)
+    | Some ivs => Some (map (fun x => ((bucket_of (iv_minimizer x) mod 2 ^ msp_simple_bucket_bits)%N, iv_start x, iv_len x)) ivs)
     | None => None
     end
   else None.
